@@ -29,6 +29,8 @@ def run(pid, tier, seed, spec):
         out["reach"] = {}
         return out
     reach.watch(getattr(mod, "REACH", []))
+    if not os.environ.get("BCV_NO_COVER"):
+        reach.cover_start(env.REPO, core.anchor_files(pid))
     if hasattr(mod, "setup"):
         mod.setup(ctx)
     try:
@@ -47,6 +49,7 @@ def run(pid, tier, seed, spec):
         mod.teardown(ctx)
     out = ctx.result()
     out["reach"] = reach.counts()
+    out["cover"] = reach.cover_result()
     out["wall_s"] = time.time() - t0
     return out
 
